@@ -216,7 +216,9 @@ func checkC26(r *core.Run, p *core.Program) {
 	r.Rule("C26.unsafe-len", "each reinterpreting fast path of internal/arrays computes the result length as len(data)/sizeof(T) for bytes->[]T and len(data)*sizeof(T) for []T->bytes (sizes from go/types).")
 	r.Rule("C26.empty", "each reinterpreting fast path takes the address of element 0 only when the slice is known to be non-empty.")
 	r.Rule("C26.pairing", "each exported ce helper returns the internal/arrays function of the same name applied to its argument, and each exported internal/arrays function falls back to the byte-wise conversion of the same element type and direction.")
+	r.Rule("C26.consumers", "wherever the library selects a conversion by array type (a case of a switch over events.ArrayType whose body calls arrays.BytesTo<T>Slice or arrays.<T>SliceAsBytes, directly or through the ce wrappers), the element type named by the conversion is the element type named by every array-type constant of that case (Float16 arrays are not read as Float32 ones and vice versa).")
 	r.NotDecide("NaN payload handling by the hardware; behaviour of the unsafe reinterpretation under the Go memory model")
+	checkC26Consumers(r, p)
 
 	// ---- C26.shift-offset -------------------------------------------------------------------
 	nAsm, nDis := 0, 0
@@ -893,4 +895,75 @@ func c26FastPath(r *core.Run, arr *packages.Package, f *fn, param *types.Var, re
 		r.Check("C26.empty", name+"|element 0 addressed only when non-empty|"+live, res.Pos(), guardNonEmpty,
 			"the fast path takes the address of element 0 (directly or in clonedBytesPtr) without a len > 0 guard: an empty slice panics with index out of range")
 	}
+}
+
+// checkC26Consumers: name agreement between array-type constants and the conversion chosen for them.
+func checkC26Consumers(r *core.Run, p *core.Program) {
+	elemOfConv := func(cal *types.Func) (string, bool) {
+		if cal == nil || cal.Pkg() == nil {
+			return "", false
+		}
+		path := cal.Pkg().Path()
+		if path != core.ModulePath+"/internal/arrays" && path != core.ModulePath+"/ce" {
+			return "", false
+		}
+		n := cal.Name()
+		switch {
+		case strings.HasPrefix(n, "BytesTo") && strings.HasSuffix(n, "Slice"):
+			return strings.TrimSuffix(strings.TrimPrefix(n, "BytesTo"), "Slice"), true
+		case strings.HasSuffix(n, "SliceAsBytes"):
+			return strings.TrimSuffix(n, "SliceAsBytes"), true
+		}
+		return "", false
+	}
+	elemOfConst := func(c *types.Const) string {
+		n := strings.TrimPrefix(c.Name(), "ArrayType")
+		if n == "UID" {
+			return "UUID"
+		}
+		return n
+	}
+	sites := 0
+	for _, rel := range core.LibraryPackages {
+		if rel == "cte/parser" {
+			continue
+		}
+		pkg := p.Pkg(rel)
+		info := pkg.TypesInfo
+		for _, f := range funcsOf(pkg) {
+			ast.Inspect(f.Decl.Body, func(nd ast.Node) bool {
+				sw, ok := nd.(*ast.SwitchStmt)
+				if !ok || sw.Tag == nil {
+					return true
+				}
+				if nt := namedOf(info.TypeOf(sw.Tag)); nt == nil || nt.Obj().Name() != "ArrayType" {
+					return true
+				}
+				for _, c := range sw.Body.List {
+					cc := c.(*ast.CaseClause)
+					var consts []*types.Const
+					for _, e := range cc.List {
+						if k, ok := objOf(info, e).(*types.Const); ok {
+							consts = append(consts, k)
+						}
+					}
+					for _, st := range cc.Body {
+						inspectCalls(info, st, func(call *ast.CallExpr, cal *types.Func) {
+							el, ok := elemOfConv(cal)
+							if !ok {
+								return
+							}
+							sites++
+							for _, k := range consts {
+								r.Check("C26.consumers", f.Name()+"|"+k.Name(), call.Pos(), strings.EqualFold(elemOfConst(k), el),
+									"arrays of type "+k.Name()+" are converted with "+cal.Name()+": the elements are read with the wrong width or format")
+							}
+						})
+					}
+				}
+				return true
+			})
+		}
+	}
+	r.Floor("C26.consumers", "array-type cases choosing a conversion", sites, 8)
 }
